@@ -112,6 +112,10 @@ def run(F, rep, tier):
     model.rule_gate_consistent(rep, M, sibs=("read_push", "push_null"))
     model.rule_frames_json(rep, M)
     order.rule_gte(F, rep)
+    # a decoded value must sit in the row of its own event: frames are bracketed for every version class
+    import reach
+    from props import C04
+    C04.bracketing_rule(F, reach.Graph(F), rep, M)
     n_gated = sum(1 for s in model.EVENT_STRUCTS for f in M.spec[s]["fields"] if f.get("since"))
     rep.counts["version_classes"] = len(M.classes)
     rep.counts["spec_fields"] = sum(len(M.spec[s]["fields"]) for s in model.EVENT_STRUCTS)
